@@ -50,7 +50,7 @@ namespace
     {
         for (unsigned char c : s)
         {
-            if (c < 0x20 || c >= 0x7f || c == '"' || c == '\\') { return "0x" + hex_of(s); }
+            if (c < 0x20 || c >= 0x7f || c == '"') { return "0x" + hex_of(s); }
         }
         return s;
     }
